@@ -118,6 +118,11 @@ package crypto
 //@   prop C03
 //@   call jws.Sign #* requires [no-private-jwk-header] isNilIface(headers.JWK()) || (did(call (jwk.Key).Raw #1) && !isNilIface(ret(call (jwk.Key).Raw #1)))
 //@   call jws.Sign #* requires [key-from-caller-only] did(call jws.WithKey #1) || did(call jws.WithKey #2)
+// ... nor into a JWT header: the same guard on the other signing entry point that takes caller-supplied headers.
+//@ func SignJWT
+//@   prop C03
+//@   call jwt.Sign #* requires [no-private-jwk-header] isNilIface(hdr.JWK()) || (did(call (jwk.Key).Raw #1) && !isNilIface(ret(call (jwk.Key).Raw #1)))
+//@   call jwt.Sign #* requires [headers-are-the-guarded-ones] didCallWith("jws.WithProtectedHeaders", 0, hdr) && hdr == ret(call convertHeaders #1).0
 
 // ---- C03: a key reference is looked up by exactly the key id asked for ----
 // gorm's query semantics are not modelled: the contract pins the condition (an explicit "kid = ?" with
